@@ -4,7 +4,7 @@ import ast
 from ..core import rule
 from ..index import AnalysisError, dotted, src, walk_no_nested, names_in
 from ..cfg import CFG
-from ..util import node_calls, own_expr
+from ..util import node_calls, own_expr, explore, mk_atoms
 from .slots import ALLELES
 from .C01 import flatten
 
@@ -34,30 +34,51 @@ def r1(ctx):
     for m in ('read_cached', 'write_cache'):
         cs = callers.get(m, set())
         ctx.emit('C18-R1', cs == {'fetchChromosome'}, ALLELES, ms[m], f'{m} is called only from {sorted(cs)}', key=f'cache-io-callers:{m}')
-    # lazy lookups: fetch when the contig is absent, with clear=True, guarded by self.lazyLoad
+    # lazy lookups: fetchChromosome(self.vcffile, chrom, clear=True) runs iff lazy loading is on and the contig is not loaded - decided on the
+    # paths of the function for the four combinations, whatever the shape of the guard
+    import itertools
     for m in ('getAllelesAt', 'has_location'):
         f = ms[m]
-        first = [s for s in f.body if isinstance(s, ast.If)][0]
-        t = src(first.test)
         chrom = f.args.args[1].arg
-        calls = [c for c in walk_no_nested(first) if isinstance(c, ast.Call) and src(c.func) == 'self.fetchChromosome']
-        ok = t == f'self.lazyLoad and {chrom} not in self.locationToAllele' and len(calls) == 1 and src(calls[0].args[0]) == 'self.vcffile' and src(calls[0].args[1]) == chrom \
-            and any(k.arg == 'clear' and src(k.value) == 'True' for k in calls[0].keywords)
-        ctx.emit('C18-R1', ok, ALLELES, first, f'{m}: `{t}` -> fetchChromosome(self.vcffile, {chrom}, clear=True)', key=f'lazy-fetch:{m}')
+        good = True
+        sig = set()
+        for lazy, absent in itertools.product((True, False), repeat=2):
+            rs = explore(f.body, mk_atoms({'self.lazyLoad': lazy, f'{chrom} in self.locationToAllele': not absent}), exceptions=False)
+            fetches = {tuple(c for c in r['calls'] if c.startswith('self.fetchChromosome(')) for r in rs}
+            want = {(f'self.fetchChromosome(self.vcffile, {chrom}, clear=True)',)} if (lazy and absent) else {()}
+            sig |= {x for t_ in fetches for x in t_}
+            if fetches != want:
+                good = False
+        ctx.emit('C18-R1', good, ALLELES, f, f'{m}: fetches iff lazy loading and the contig is absent -> {sorted(sig)}', key=f'lazy-fetch:{m}')
     # eager: fetch unless lazy
     init = ms['__init__']
     calls = [c for c in walk_no_nested(init) if isinstance(c, ast.Call) and src(c.func) == 'self.fetchChromosome']
-    mod = ctx.ix.module(ALLELES)
     ok = False
     if len(calls) == 1:
-        p = mod.parent[mod.parent[calls[0]]]
-        ok = isinstance(p, ast.If) and src(p.test) == 'not lazyLoad'
+        top = [s_ for s_ in init.body if any(x is calls[0] for x in ast.walk(s_))]
+        ok = bool(top)
+        for lazy in (True, False):
+            rs = explore(top, mk_atoms({'uglyMode': False, 'lazyLoad': lazy}))
+            got = {any(c.startswith('self.fetchChromosome(') for c in r['calls']) for r in rs}
+            ok = ok and got == {not lazy}
+        # the local tested is the final value stored in self.lazyLoad (C18-R2 checks the attribute)
     ctx.emit('C18-R1', ok, ALLELES, calls[0] if calls else init, 'constructor fetches eagerly iff lazy loading is off (final value of the local)', key='eager-fetch')
-    # lookups read the same structure the fetch fills
+    # lookups read the same structure the fetch fills: decision table over (contig loaded, position known, base known)
     g = ms['getAllelesAt']
-    rets = [src(r.value) for r in walk_no_nested(g) if isinstance(r, ast.Return) and r.value is not None]
     a = [x.arg for x in g.args.args]
-    ok = f'self.locationToAllele[{a[1]}][{a[2]}][{a[3]}]' in rets and rets.count('None') >= 2
+    entry = f'self.locationToAllele[{a[1]}][{a[2]}][{a[3]}]'
+    ok = True
+    for c_, p_, b_ in itertools.product((True, False), repeat=3):
+        rs = explore(g.body, mk_atoms({'self.lazyLoad': False, f'{a[1]} in self.locationToAllele': c_, f'{a[2]} in self.locationToAllele[{a[1]}]': p_,
+                                       f'{a[3]} in self.locationToAllele[{a[1]}][{a[2]}]': b_}))
+        rets = {(src(r['stmt'].value) if r['kind'] == 'return' and r['stmt'] is not None and r['stmt'].value is not None else r['kind']) for r in rs}
+        want = {entry} if (c_ and p_ and b_) else {'None'}
+        if c_ and not p_:
+            want = {'None'}
+        # combinations that cannot occur (position known without contig) need not be decided
+        if (not c_ and (p_ or b_)) or (not p_ and b_):
+            continue
+        ok = ok and rets == want
     ctx.emit('C18-R1', ok, ALLELES, g, f'getAllelesAt returns locationToAllele[chrom][pos][base] or None when contig / position / base are absent', key='lookup-returns')
 
 
